@@ -91,9 +91,14 @@ Proof.
   - rewrite len_app. pose proof (len_nonneg t). lia.
 Qed.
 
-Lemma hull_ok_grow k d t mn mx : hull_ok k d -> (forall y, In y t -> mn <= y <= mx) -> hull_ok (hull_update k mn mx) (d ++ t).
+Lemma hull_ok_grow k d t mn mx : hull_ok k d -> (forall y, In y t -> mn <= y <= mx) -> Forall int64_ok t ->
+  hull_ok (hull_update k mn mx) (d ++ t).
 Proof.
-  intros Hh Ht i Hi. rewrite len_app in Hi. unfold hull_update. cbn [k_min k_max].
+  intros Hh Ht Hint i Hi. rewrite len_app in Hi. unfold hull_update, hull_ok, k_rmin, k_rmax in *. cbn [k_min k_max k_partial].
+  destruct (k_partial k).
+  { destruct (Z_lt_ge_dec i (len d)) as [Hlt|Hge].
+    - rewrite dnth_app_l by lia. apply (Hh i). lia.
+    - rewrite dnth_app_r by lia. rewrite Forall_forall in Hint. apply (Hint (dnth t (i - len d))). apply dnth_In. lia. }
   assert (Hmn : (if mn <? k_min k then mn else k_min k) <= k_min k /\ (if mn <? k_min k then mn else k_min k) <= mn).
   { destruct (mn <? k_min k) eqn:E; [apply Z.ltb_lt in E|apply Z.ltb_ge in E]; lia. }
   assert (Hmx : k_max k <= (if k_max k <? mx then mx else k_max k) /\ mx <= (if k_max k <? mx then mx else k_max k)).
@@ -119,11 +124,11 @@ Qed.
 (* the first write into a new chunk: the chunk's data is exactly this segment *)
 Lemma on_write_new_chunk skip nc cid tss mn mx :
   tss <> [] -> sorted_z tss -> (forall y, In y tss -> mn <= y <= mx) -> mx <= lastz tss ->
-  chunk_invS (fst (on_write_chunk skip nc (mkinfo cid mn mx None 0 false) 0 (len tss - 1) mn mx)) tss.
+  chunk_invS (fst (on_write_chunk skip nc (mkinfo cid mn mx None 0 false false) 0 (len tss - 1) mn mx)) tss.
 Proof.
   intros Hne Hs Hb Hmx.
-  assert (Hhull : forall k, k_min k = mn -> k_max k = mx -> hull_ok k tss).
-  { intros k E1 E2 i Hi. rewrite E1, E2. apply Hb. apply dnth_In. exact Hi. }
+  assert (Hhull : forall k, k_partial k = false -> k_min k = mn -> k_max k = mx -> hull_ok k tss).
+  { intros k E0 E1 E2 i Hi. unfold k_rmin, k_rmax. rewrite E0, E1, E2. apply Hb. apply dnth_In. exact Hi. }
   assert (Hmnmx : mn <= mx) by (specialize (Hb _ (lastz_In tss Hne)); lia).
   unfold on_write_chunk. cbn [k_bad k_last k_root k_id k_min k_max].
   destruct skip; [split; [apply Hhull; reflexivity|cbn; intros _ rs Hr; discriminate]|].
@@ -141,11 +146,11 @@ Qed.
 (* a later write into the last chunk by a batch that starts in it: d = the data before, tss = the segment *)
 Lemma on_write_old_chunk skip l d tss mn mx :
   chunk_invS l d -> d <> [] -> tss <> [] -> sorted_z (d ++ tss) ->
-  (forall y, In y tss -> mn <= y <= mx) -> In mn tss -> mx <= lastz tss ->
+  (forall y, In y tss -> mn <= y <= mx) -> In mn tss -> mx <= lastz tss -> Forall int64_ok tss ->
   chunk_invS (fst (on_write_chunk skip false (hull_update l mn mx) (len d) (len d + len tss - 1) mn mx)) (d ++ tss).
 Proof.
-  intros [Hh Hi] Hdne Hne Hs Hb Hmn Hmx.
-  pose proof (hull_ok_grow l d tss mn mx Hh Hb) as Hh'.
+  intros [Hh Hi] Hdne Hne Hs Hb Hmn Hmx Hint.
+  pose proof (hull_ok_grow l d tss mn mx Hh Hb Hint) as Hh'.
   set (l' := hull_update l mn mx) in *.
   assert (Hsame : chunk_invS l' (d ++ tss)).
   { split; [exact Hh'|]. intros Hb' rs Hr. destruct (Hi Hb' rs Hr) as (Hn & Hso & Ha).
@@ -313,25 +318,25 @@ Proof.
 Qed.
 
 (* ---------- cindex.onWrite on the list of infos ---------- *)
-Lemma ci_on_write_last cis l skip f lr cid mn mx : k_id l = cid ->
-  fst (ci_on_write skip (cis ++ [l]) f lr cid mn mx) =
+Lemma ci_on_write_last fp cis l skip f lr cid mn mx : k_id l = cid ->
+  fst (ci_on_write fp skip (cis ++ [l]) f lr cid mn mx) =
   cis ++ [fst (on_write_chunk skip false (hull_update l mn mx) f lr mn mx)].
 Proof.
   intros E. unfold ci_on_write. destruct (cis ++ [l]) as [|a tl] eqn:Eq; [destruct cis; discriminate|].
   rewrite <- Eq. rewrite last_last, removelast_last. rewrite E, Z.eqb_refl. cbn [negb].
   destruct (on_write_chunk skip false (hull_update l mn mx) f lr mn mx). reflexivity.
 Qed.
-Lemma ci_on_write_new ci skip f lr cid mn mx : (forall k, In k ci -> k_id k <> cid) ->
-  fst (ci_on_write skip ci f lr cid mn mx) =
-  ci ++ [fst (on_write_chunk skip true (mkinfo cid mn mx None 0 false) f lr mn mx)].
+Lemma ci_on_write_new fp ci skip f lr cid mn mx : (forall k, In k ci -> k_id k <> cid) ->
+  fst (ci_on_write fp skip ci f lr cid mn mx) =
+  ci ++ [fst (on_write_chunk skip true (mkinfo cid mn mx None 0 false (fp && (0 <? f))) f lr mn mx)].
 Proof.
   intros H. unfold ci_on_write. destruct ci as [|a tl] eqn:Eq.
-  - destruct (on_write_chunk skip true (mkinfo cid mn mx None 0 false) f lr mn mx). reflexivity.
+  - destruct (on_write_chunk skip true (mkinfo cid mn mx None 0 false (fp && (0 <? f))) f lr mn mx). reflexivity.
   - rewrite <- Eq in *. assert (Hne : ci <> []) by (rewrite Eq; discriminate).
     destruct (exists_last Hne) as (cis & l & E). rewrite E in *. rewrite last_last.
     assert (Hl : k_id l <> cid) by (apply H; apply in_or_app; right; left; reflexivity).
     destruct (Z.eqb_spec (k_id l) cid) as [E'|_]; [contradiction|]. cbn [negb].
-    destruct (on_write_chunk skip true (mkinfo cid mn mx None 0 false) f lr mn mx). reflexivity.
+    destruct (on_write_chunk skip true (mkinfo cid mn mx None 0 false (fp && (0 <? f))) f lr mn mx). reflexivity.
 Qed.
 
 (* ---------- the invariant of reachable states ---------- *)
@@ -343,6 +348,11 @@ Record J (st : pstate) : Prop := mkJ {
   j_inv : forall c d k, In (c, d) (p_chunks st) -> find_chunk (p_ci st) c = Some k -> chunk_invS k d
 }.
 Definition synced (st : pstate) : Prop := map k_id (p_ci st) = ids_of (p_chunks st).
+(* the index knows the last chunks of the journal: what holds at any time, also after an index loss followed by writes
+   (the chunks written since are known, the older ones are learnt by the next SyncChunks) *)
+Definition ssynced (st : pstate) : Prop := exists pre, ids_of (p_chunks st) = pre ++ map k_id (p_ci st).
+Lemma synced_ssynced st : synced st -> ssynced st.
+Proof. intros H. exists []. rewrite H. reflexivity. Qed.
 
 Lemma In_ids cks c d : In (c, d) cks -> In c (ids_of cks).
 Proof. intros H. unfold ids_of. change c with (fst (c, d)). apply in_map. exact H. Qed.
@@ -355,7 +365,7 @@ Definition seg_apply (v : variant) (st : pstate) (iw : iw_state) (sg : seg) : ps
   let iw' := fold_left (iw_get (fix_zero v)) (sg_ts sg) iw in
   let first := Z.of_nat (length (chunk_data (p_chunks st) (sg_cid sg))) in
   let lastr := first + Z.of_nat (length (sg_ts sg)) - 1 in
-  let cr := ci_on_write (sg_skip sg) (p_ci st) first lastr (sg_cid sg) (iw_min iw') (iw_max iw') in
+  let cr := ci_on_write (fix_partial v) (sg_skip sg) (p_ci st) first lastr (sg_cid sg) (iw_min iw') (iw_max iw') in
   let q' := match snd cr with WCorrupted => enqueue (p_queue st) (sg_cid sg) | WOk => p_queue st end in
   (mkp (append_data (p_chunks st) (sg_cid sg) (sg_ts sg)) (fst cr) q', iw').
 
@@ -364,7 +374,7 @@ Lemma run_segs_cons v st iw sg tl : sg_ts sg <> [] ->
 Proof.
   intros H. cbn [run_segs]. destruct (sg_ts sg) as [|t ts] eqn:E; [contradiction|]. rewrite <- E.
   unfold seg_apply. rewrite E. rewrite <- E.
-  destruct (ci_on_write (sg_skip sg) (p_ci st) (Z.of_nat (length (chunk_data (p_chunks st) (sg_cid sg))))
+  destruct (ci_on_write (fix_partial v) (sg_skip sg) (p_ci st) (Z.of_nat (length (chunk_data (p_chunks st) (sg_cid sg))))
              (Z.of_nat (length (chunk_data (p_chunks st) (sg_cid sg))) + Z.of_nat (length (sg_ts sg)) - 1)
              (sg_cid sg) (iw_min (fold_left (iw_get (fix_zero v)) (sg_ts sg) iw)) (iw_max (fold_left (iw_get (fix_zero v)) (sg_ts sg) iw))) as [ci' res].
   reflexivity.
@@ -374,15 +384,15 @@ Proof. intros H. cbn [run_segs]. rewrite H. reflexivity. Qed.
 
 (* a segment that continues the last chunk (necessarily the first of its batch) *)
 Lemma seg_apply_old v st sg :
-  fix_zero v = true -> J st -> synced st -> sg_ts sg <> [] ->
+  fix_zero v = true -> J st -> ssynced st -> p_ci st <> [] -> sg_ts sg <> [] ->
   last_id (ids_of (p_chunks st)) = Some (sg_cid sg) ->
   sorted_z (alld_of (p_chunks st) ++ sg_ts sg) -> Forall int64_ok (sg_ts sg) ->
   let st' := fst (seg_apply v st iw_init sg) in
-  J st' /\ synced st' /\ alld_of (p_chunks st') = alld_of (p_chunks st) ++ sg_ts sg /\
+  J st' /\ (ssynced st' /\ (synced st -> synced st')) /\ alld_of (p_chunks st') = alld_of (p_chunks st) ++ sg_ts sg /\
   ids_of (p_chunks st') = ids_of (p_chunks st) /\ iw_repr (snd (seg_apply v st iw_init sg)) (sg_ts sg).
 Proof.
-  intros Hv HJ Hsy Hne Hlast Hso Hint. destruct HJ as [Hids Hcne Hsorted Hi64 Hinv].
-  destruct st as [cks ci q]. cbn [p_chunks p_ci p_queue] in *. unfold synced in Hsy. cbn [p_ci p_chunks] in Hsy.
+  intros Hv HJ [pre Hsy] Hcine Hne Hlast Hso Hint. destruct HJ as [Hids Hcne Hsorted Hi64 Hinv].
+  destruct st as [cks ci q]. cbn [p_chunks p_ci p_queue] in *. unfold synced. cbn [p_ci p_chunks].
   set (cid := sg_cid sg) in *. set (tss := sg_ts sg) in *.
   (* decompose the chunk list and the info list at their last elements *)
   assert (Hckne : cks <> []) by (destruct cks; [discriminate|discriminate]).
@@ -392,12 +402,11 @@ Proof.
   { unfold last_id in Hlast. destruct (ids_of cks0 ++ [c0]) eqn:E; [destruct (ids_of cks0); discriminate|].
     rewrite <- E in Hlast. rewrite last_last in Hlast. injection Hlast as ->. reflexivity. }
   subst c0.
-  assert (Hcine : ci <> []) by (intros ->; cbn in Hsy; destruct (ids_of cks0); discriminate).
   destruct (exists_last Hcine) as (cis & l & ->).
-  rewrite map_app in Hsy. cbn [map] in Hsy. apply app_inj_tail in Hsy as [Hsy0 Hlid].
+  rewrite map_app in Hsy. cbn [map] in Hsy. rewrite app_assoc in Hsy. apply app_inj_tail in Hsy as [Hsy0 Hlid]. symmetry in Hlid.
   assert (Hnotin : ~ In cid (ids_of cks0)).
   { intros Hin. pose proof (inc_ids_last_max _ _ _ Hids Hin). lia. }
-  assert (Hnotin' : ~ In cid (map k_id cis)) by (rewrite Hsy0; exact Hnotin).
+  assert (Hnotin' : ~ In cid (map k_id cis)) by (intros Hi; apply Hnotin; rewrite Hsy0; apply in_or_app; right; exact Hi).
   assert (Hfl : find_chunk (cis ++ [l]) cid = Some l).
   { rewrite find_chunk_app, (find_chunk_none _ _ Hnotin'), Hlid, Z.eqb_refl. reflexivity. }
   assert (HinvL : chunk_invS l d) by (apply (Hinv cid d l); [apply in_or_app; right; left; reflexivity|exact Hfl]).
@@ -410,7 +419,7 @@ Proof.
   set (iw' := fold_left (iw_get true) tss iw_init) in *.
   rewrite (chunk_data_app_last cks0 cid d Hnotin). rewrite (append_data_last cks0 cid d tss Hnotin).
   fold (len d). fold (len tss).
-  rewrite (ci_on_write_last cis l (sg_skip sg) (len d) (len d + len tss - 1) cid (iw_min iw') (iw_max iw') Hlid).
+  rewrite (ci_on_write_last (fix_partial v) cis l (sg_skip sg) (len d) (len d + len tss - 1) cid (iw_min iw') (iw_max iw') Hlid).
   set (k' := fst (on_write_chunk (sg_skip sg) false (hull_update l (iw_min iw') (iw_max iw')) (len d) (len d + len tss - 1) (iw_min iw') (iw_max iw'))).
   assert (Hk'id : k_id k' = cid).
   { unfold k'. rewrite on_write_chunk_id. destruct (hull_update_fields l (iw_min iw') (iw_max iw')) as (E & _). rewrite E. exact Hlid. }
@@ -434,7 +443,9 @@ Proof.
         rewrite Hk'id in Hf. destruct (Z.eqb_spec cid c); [congruence|discriminate].
       * injection E as <- <-. rewrite find_chunk_app, (find_chunk_none _ _ Hnotin'), Hk'id, Z.eqb_refl in Hf.
         injection Hf as <-. exact Hk'.
-  - unfold synced. cbn [p_ci p_chunks]. rewrite map_app, ids_app. cbn. rewrite Hsy0, Hk'id. reflexivity.
+  - split.
+    + exists pre. cbn [p_ci p_chunks]. rewrite map_app, ids_app. cbn [map ids_of fst]. rewrite Hsy0, Hk'id, app_assoc. reflexivity.
+    + cbn [p_ci p_chunks]. rewrite !map_app, !ids_app. cbn [map ids_of fst]. intros E. apply app_inj_tail in E as [E _]. rewrite E, Hk'id. reflexivity.
   - cbn [p_chunks]. rewrite alld_app. cbn [alld_of flat_map snd]. rewrite app_nil_r, app_assoc. reflexivity.
   - cbn [p_chunks]. rewrite !ids_app. reflexivity.
   - exact Hiw.
@@ -442,19 +453,19 @@ Qed.
 
 (* a segment that opens a new chunk (any position in its batch; `seen` = the batch's timestamps so far) *)
 Lemma seg_apply_new v st iw seen sg :
-  fix_zero v = true -> J st -> synced st -> sg_ts sg <> [] ->
+  fix_zero v = true -> J st -> ssynced st -> sg_ts sg <> [] ->
   (forall c, In c (ids_of (p_chunks st)) -> c < sg_cid sg) ->
   sorted_z (alld_of (p_chunks st) ++ sg_ts sg) -> Forall int64_ok (sg_ts sg) ->
   iw_repr iw seen -> incl seen (alld_of (p_chunks st)) ->
   let st' := fst (seg_apply v st iw sg) in
-  J st' /\ synced st' /\ alld_of (p_chunks st') = alld_of (p_chunks st) ++ sg_ts sg /\
+  J st' /\ (ssynced st' /\ (synced st -> synced st')) /\ alld_of (p_chunks st') = alld_of (p_chunks st) ++ sg_ts sg /\
   ids_of (p_chunks st') = ids_of (p_chunks st) ++ [sg_cid sg] /\ iw_repr (snd (seg_apply v st iw sg)) (seen ++ sg_ts sg).
 Proof.
-  intros Hv HJ Hsy Hne Hnew Hso Hint Hiw0 Hseen. destruct HJ as [Hids Hcne Hsorted Hi64 Hinv].
-  destruct st as [cks ci q]. cbn [p_chunks p_ci p_queue] in *. unfold synced in Hsy. cbn [p_ci p_chunks] in Hsy.
+  intros Hv HJ [pre Hsy] Hne Hnew Hso Hint Hiw0 Hseen. destruct HJ as [Hids Hcne Hsorted Hi64 Hinv].
+  destruct st as [cks ci q]. cbn [p_chunks p_ci p_queue] in *. unfold synced. cbn [p_ci p_chunks].
   set (cid := sg_cid sg) in *. set (tss := sg_ts sg) in *.
   assert (Hnotin : ~ In cid (ids_of cks)) by (intros Hin; specialize (Hnew _ Hin); lia).
-  assert (Hnotin' : ~ In cid (map k_id ci)) by (rewrite Hsy; exact Hnotin).
+  assert (Hnotin' : ~ In cid (map k_id ci)) by (intros Hi; apply Hnotin; rewrite Hsy; apply in_or_app; right; exact Hi).
   pose proof (iw_fold_repr tss iw seen Hiw0) as Hiw.
   assert (Hne' : seen ++ tss <> []) by (destruct seen; [exact Hne|discriminate]).
   destruct (iw_repr_nonempty _ _ Hne' Hiw) as (Hmnin & Hmxin & Hb).
@@ -463,9 +474,10 @@ Proof.
   rewrite (chunk_data_none cks cid Hnotin). rewrite (append_data_new cks cid tss Hnotin). cbn [length].
   replace (Z.of_nat 0 + Z.of_nat (length tss) - 1) with (len tss - 1) by (unfold len; lia).
   change (Z.of_nat 0) with 0.
-  rewrite (ci_on_write_new ci (sg_skip sg) 0 (len tss - 1) cid (iw_min iw') (iw_max iw')).
+  rewrite (ci_on_write_new (fix_partial v) ci (sg_skip sg) 0 (len tss - 1) cid (iw_min iw') (iw_max iw')).
   2:{ intros k Hk E. apply Hnotin'. rewrite <- E. apply in_map. exact Hk. }
-  set (k' := fst (on_write_chunk (sg_skip sg) true (mkinfo cid (iw_min iw') (iw_max iw') None 0 false) 0 (len tss - 1) (iw_min iw') (iw_max iw'))).
+  rewrite Z.ltb_irrefl, andb_false_r.
+  set (k' := fst (on_write_chunk (sg_skip sg) true (mkinfo cid (iw_min iw') (iw_max iw') None 0 false false) 0 (len tss - 1) (iw_min iw') (iw_max iw'))).
   assert (Hk'id : k_id k' = cid) by (unfold k'; rewrite on_write_chunk_id; reflexivity).
   assert (Hst : sorted_z tss) by (apply (sorted_z_app_r _ _ Hso)).
   assert (Hmxle : iw_max iw' <= lastz tss).
@@ -487,9 +499,75 @@ Proof.
         rewrite Hk'id in Hf. destruct (Z.eqb_spec cid c); [congruence|discriminate].
       * injection E as <- <-. rewrite find_chunk_app, (find_chunk_none _ _ Hnotin'), Hk'id, Z.eqb_refl in Hf.
         injection Hf as <-. exact Hk'.
-  - unfold synced. cbn [p_ci p_chunks]. rewrite map_app, ids_app. cbn. rewrite Hsy, Hk'id. reflexivity.
+  - split.
+    + exists pre. cbn [p_ci p_chunks]. rewrite map_app, ids_app. cbn [map ids_of fst]. rewrite Hsy, Hk'id, app_assoc. reflexivity.
+    + cbn [p_ci p_chunks]. rewrite !map_app, !ids_app. cbn [map ids_of fst]. intros E. rewrite E, Hk'id. reflexivity.
   - cbn [p_chunks]. rewrite alld_app. cbn [alld_of flat_map snd]. rewrite app_nil_r. reflexivity.
   - cbn [p_chunks]. rewrite ids_app. reflexivity.
+  - exact Hiw.
+Qed.
+
+(* a segment that continues the last chunk while the index knows nothing (its files were lost and nothing has
+   synchronised it since): the info is created with the hull of the written records only and marked partial *)
+Lemma seg_apply_unknown v st sg :
+  fix_zero v = true -> fix_partial v = true -> J st -> p_ci st = [] -> sg_ts sg <> [] ->
+  last_id (ids_of (p_chunks st)) = Some (sg_cid sg) ->
+  sorted_z (alld_of (p_chunks st) ++ sg_ts sg) -> Forall int64_ok (sg_ts sg) ->
+  let st' := fst (seg_apply v st iw_init sg) in
+  J st' /\ ssynced st' /\ p_ci st' <> [] /\ alld_of (p_chunks st') = alld_of (p_chunks st) ++ sg_ts sg /\
+  ids_of (p_chunks st') = ids_of (p_chunks st) /\ iw_repr (snd (seg_apply v st iw_init sg)) (sg_ts sg).
+Proof.
+  intros Hv Hp HJ Hci Hne Hlast Hso Hint. destruct HJ as [Hids Hcne Hsorted Hi64 Hinv].
+  destruct st as [cks ci q]. cbn [p_chunks p_ci p_queue] in *. subst ci.
+  set (cid := sg_cid sg) in *. set (tss := sg_ts sg) in *.
+  assert (Hckne : cks <> []) by (destruct cks; [discriminate|discriminate]).
+  destruct (exists_last Hckne) as (cks0 & [c0 d] & ->).
+  rewrite ids_app in *. cbn [ids_of map fst] in *.
+  assert (Hc0 : c0 = cid).
+  { unfold last_id in Hlast. destruct (ids_of cks0 ++ [c0]) eqn:E; [destruct (ids_of cks0); discriminate|].
+    rewrite <- E in Hlast. rewrite last_last in Hlast. injection Hlast as ->. reflexivity. }
+  subst c0.
+  assert (Hnotin : ~ In cid (ids_of cks0)).
+  { intros Hin. pose proof (inc_ids_last_max _ _ _ Hids Hin). lia. }
+  assert (Hdne : d <> []) by (apply (Hcne cid d); apply in_or_app; right; left; reflexivity).
+  pose proof (iw_fold_repr tss iw_init [] (or_introl (conj eq_refl eq_refl))) as Hiw. cbn [app] in Hiw.
+  unfold seg_apply. cbn [p_chunks p_ci p_queue fst snd]. fold cid tss. rewrite Hv, Hp.
+  set (iw' := fold_left (iw_get true) tss iw_init) in *.
+  rewrite (chunk_data_app_last cks0 cid d Hnotin). rewrite (append_data_last cks0 cid d tss Hnotin).
+  fold (len d). fold (len tss).
+  unfold ci_on_write. cbn [andb].
+  assert (Hpos : (0 <? len d) = true) by (apply Z.ltb_lt; apply len_pos; exact Hdne). rewrite Hpos.
+  set (fresh := mkinfo cid (iw_min iw') (iw_max iw') None 0 false true).
+  set (k' := fst (on_write_chunk (sg_skip sg) true fresh (len d) (len d + len tss - 1) (iw_min iw') (iw_max iw'))).
+  assert (Hk'id : k_id k' = cid) by (unfold k'; rewrite on_write_chunk_id; reflexivity).
+  assert (Hk'eq : k' = fresh \/ k' = make_corrupted fresh).
+  { unfold k', on_write_chunk. destruct (sg_skip sg); [left; reflexivity|]. cbn [k_bad fresh]. rewrite Hpos. cbn [andb]. right. reflexivity. }
+  assert (Hall64 : Forall int64_ok (d ++ tss)).
+  { apply Forall_app. split; [|exact Hint]. rewrite alld_app in Hi64. cbn [alld_of flat_map snd] in Hi64. rewrite app_nil_r in Hi64.
+    apply Forall_app in Hi64 as [_ H]. exact H. }
+  assert (Hk' : chunk_invS k' (d ++ tss)).
+  { split.
+    - intros i Hi. rewrite Forall_forall in Hall64. specialize (Hall64 (dnth (d ++ tss) i) (dnth_In _ _ Hi)).
+      destruct Hk'eq as [->| ->]; unfold k_rmin, k_rmax; cbn [k_partial fresh make_corrupted]; exact Hall64.
+    - destruct Hk'eq as [->| ->]; cbn [k_bad k_root fresh make_corrupted]; [intros _ rs Hr; discriminate|intros Hb; discriminate]. }
+  destruct (on_write_chunk (sg_skip sg) true fresh (len d) (len d + len tss - 1) (iw_min iw') (iw_max iw')) as [k0 r0] eqn:Eow.
+  cbn [fst] in k'. subst k'. cbn [fst snd p_ci p_chunks].
+  rewrite alld_app in *. cbn [alld_of flat_map snd] in *. rewrite app_nil_r in *.
+  split; [|split; [|split; [|split; [|split]]]].
+  - constructor; cbn [p_chunks p_ci].
+    + rewrite ids_app. cbn. exact Hids.
+    + intros c d0 Hin. apply in_app_or in Hin as [Hin|[E|[]]].
+      * apply (Hcne c d0). apply in_or_app. left. exact Hin.
+      * injection E as <- <-. destruct d; [contradiction|discriminate].
+    + rewrite alld_app. cbn [alld_of flat_map snd]. rewrite app_nil_r. rewrite app_assoc. exact Hso.
+    + rewrite alld_app. cbn [alld_of flat_map snd]. rewrite app_nil_r. rewrite app_assoc. apply Forall_app. split; assumption.
+    + intros c d0 k Hin Hf. cbn [find_chunk] in Hf. rewrite Hk'id in Hf. destruct (Z.eqb_spec cid c) as [<-|Hne']; [|discriminate].
+      injection Hf as <-. apply in_app_or in Hin as [Hin|[E|[]]]; [exfalso; apply Hnotin; apply (In_ids _ _ _ Hin)|].
+      injection E as <-. exact Hk'.
+  - exists (ids_of cks0). cbn [p_ci p_chunks map]. rewrite ids_app, Hk'id. reflexivity.
+  - discriminate.
+  - cbn [p_chunks]. rewrite alld_app. cbn [alld_of flat_map snd]. rewrite app_nil_r, app_assoc. reflexivity.
+  - cbn [p_chunks]. rewrite !ids_app. reflexivity.
   - exact Hiw.
 Qed.
 
@@ -507,16 +585,16 @@ Proof.
   rewrite last_last. apply in_or_app. right. left. reflexivity.
 Qed.
 
-Lemma run_segs_inv v : fix_zero v = true -> forall segs st iw seen first,
-  J st -> synced st -> iw_repr iw seen -> incl seen (alld_of (p_chunks st)) ->
+Lemma run_segs_inv v : fix_zero v = true -> fix_partial v = true -> forall segs st iw seen first,
+  J st -> ssynced st -> iw_repr iw seen -> incl seen (alld_of (p_chunks st)) ->
   (first = true -> seen = [] /\ iw = iw_init) ->
   segs_disc (ids_of (p_chunks st)) first segs ->
   sorted_z (alld_of (p_chunks st) ++ flat_map sg_ts segs) -> Forall seg_ok segs ->
   let st' := run_segs v st iw segs in
-  J st' /\ synced st' /\ alld_of (p_chunks st') = alld_of (p_chunks st) ++ flat_map sg_ts segs /\
+  J st' /\ (ssynced st' /\ (synced st -> synced st')) /\ alld_of (p_chunks st') = alld_of (p_chunks st) ++ flat_map sg_ts segs /\
   ids_of (p_chunks st') = ids_after (ids_of (p_chunks st)) segs.
 Proof.
-  intros Hv. induction segs as [|sg tl IH]; intros st iw seen first HJ Hsy Hiw Hseen Hfirst Hdisc Hso Hok.
+  intros Hv Hp. induction segs as [|sg tl IH]; intros st iw seen first HJ Hsy Hiw Hseen Hfirst Hdisc Hso Hok.
   - cbn. rewrite app_nil_r. auto.
   - inversion Hok as [|x l Hsg Htl]; subst. cbn [segs_disc ids_after flat_map] in *.
     destruct (sg_ts sg) as [|t ts] eqn:Ets.
@@ -526,32 +604,41 @@ Proof.
       assert (Hso1 : sorted_z (alld_of (p_chunks st) ++ sg_ts sg)) by (rewrite app_assoc in Hso; apply (sorted_z_app_l _ _ Hso)).
       destruct Hdisc as [(Hf & Hlast & Hd)|(Hnew & Hd)].
       * destruct (Hfirst Hf) as [-> ->].
-        destruct (seg_apply_old v st sg Hv HJ Hsy Hne Hlast Hso1 Hsg) as (HJ1 & Hsy1 & Hall1 & Hids1 & Hiw1).
-        set (st1 := fst (seg_apply v st iw_init sg)) in *. set (iw1 := snd (seg_apply v st iw_init sg)) in *.
         assert (Hex : existsb (Z.eqb (sg_cid sg)) (ids_of (p_chunks st)) = true) by (apply existsb_In; apply last_id_In; exact Hlast).
         rewrite Hex.
-        destruct (IH st1 iw1 (sg_ts sg) false HJ1 Hsy1 Hiw1) as (HJ2 & Hsy2 & Hall2 & Hids2).
+        assert (Hstep : let st1 := fst (seg_apply v st iw_init sg) in
+                  J st1 /\ (ssynced st1 /\ (synced st -> synced st1)) /\ alld_of (p_chunks st1) = alld_of (p_chunks st) ++ sg_ts sg /\
+                  ids_of (p_chunks st1) = ids_of (p_chunks st) /\ iw_repr (snd (seg_apply v st iw_init sg)) (sg_ts sg)).
+        { destruct (p_ci st) as [|k0 ci0] eqn:Eci.
+          - destruct (seg_apply_unknown v st sg Hv Hp HJ Eci Hne Hlast Hso1 Hsg) as (H1 & H2 & _ & H3 & H4 & H5).
+            cbn zeta. split; [exact H1|]. split; [split; [exact H2|]|split; [exact H3|split; [exact H4|exact H5]]].
+            intros Hs. exfalso. unfold synced in Hs. rewrite Eci in Hs. cbn in Hs.
+            apply last_id_In in Hlast. rewrite <- Hs in Hlast. destruct Hlast.
+          - apply (seg_apply_old v st sg Hv HJ Hsy); try assumption. rewrite Eci. discriminate. }
+        destruct Hstep as (HJ1 & [Hsy1 Hsy1'] & Hall1 & Hids1 & Hiw1).
+        set (st1 := fst (seg_apply v st iw_init sg)) in *. set (iw1 := snd (seg_apply v st iw_init sg)) in *.
+        destruct (IH st1 iw1 (sg_ts sg) false HJ1 Hsy1 Hiw1) as (HJ2 & [Hsy2 Hsy2'] & Hall2 & Hids2).
         { rewrite Hall1. apply incl_appr. apply incl_refl. }
         { discriminate. }
         { rewrite Hids1. exact Hd. }
         { rewrite Hall1, <- app_assoc. exact Hso. }
         { exact Htl. }
-        split; [exact HJ2|]. split; [exact Hsy2|]. split; [rewrite Hall2, Hall1, <- app_assoc; reflexivity|].
-        rewrite Hids2, Hids1. reflexivity.
-      * destruct (seg_apply_new v st iw seen sg Hv HJ Hsy Hne Hnew Hso1 Hsg Hiw Hseen) as (HJ1 & Hsy1 & Hall1 & Hids1 & Hiw1).
+        split; [exact HJ2|]. split; [split; [exact Hsy2|intros Hs; apply Hsy2'; apply Hsy1'; exact Hs]|].
+        split; [rewrite Hall2, Hall1, <- app_assoc; reflexivity|]. rewrite Hids2, Hids1. reflexivity.
+      * destruct (seg_apply_new v st iw seen sg Hv HJ Hsy Hne Hnew Hso1 Hsg Hiw Hseen) as (HJ1 & [Hsy1 Hsy1'] & Hall1 & Hids1 & Hiw1).
         set (st1 := fst (seg_apply v st iw sg)) in *. set (iw1 := snd (seg_apply v st iw sg)) in *.
         assert (Hex : existsb (Z.eqb (sg_cid sg)) (ids_of (p_chunks st)) = false).
         { destruct (existsb (Z.eqb (sg_cid sg)) (ids_of (p_chunks st))) eqn:E; [|reflexivity].
           apply existsb_In in E. specialize (Hnew _ E). lia. }
         rewrite Hex.
-        destruct (IH st1 iw1 (seen ++ sg_ts sg) false HJ1 Hsy1 Hiw1) as (HJ2 & Hsy2 & Hall2 & Hids2).
+        destruct (IH st1 iw1 (seen ++ sg_ts sg) false HJ1 Hsy1 Hiw1) as (HJ2 & [Hsy2 Hsy2'] & Hall2 & Hids2).
         { rewrite Hall1. apply incl_app; [apply incl_appl; exact Hseen|apply incl_appr; apply incl_refl]. }
         { discriminate. }
         { rewrite Hids1. exact Hd. }
         { rewrite Hall1, <- app_assoc. exact Hso. }
         { exact Htl. }
-        split; [exact HJ2|]. split; [exact Hsy2|]. split; [rewrite Hall2, Hall1, <- app_assoc; reflexivity|].
-        rewrite Hids2, Hids1. reflexivity.
+        split; [exact HJ2|]. split; [split; [exact Hsy2|intros Hs; apply Hsy2'; apply Hsy1'; exact Hs]|].
+        split; [rewrite Hall2, Hall1, <- app_assoc; reflexivity|]. rewrite Hids2, Hids1. reflexivity.
 Qed.
 
 (* ---------- SyncChunks ---------- *)
@@ -778,17 +865,18 @@ Proof.
   destruct (match k_root k1 with Some _ => negb (k_bad k1) | None => false end); [apply Hc; exact Hf|].
   destruct (rebuild_int_inv d Hs Hint Hne) as (ri & root & Er & (Hrn & Hso & Ha) & Hcov).
   rewrite Er in Hf. rewrite find_chunk_replace in Hf.
-  destruct (hull_update_fields (mkinfo (k_id k1) (k_min k1) (k_max k1) (Some root) 0 false) (fst ri) (snd ri)) as (Eid & Eroot & Ebad & _).
+  destruct (hull_update_fields (mkinfo (k_id k1) (k_min k1) (k_max k1) (Some root) 0 false false) (fst ri) (snd ri)) as (Eid & Eroot & Ebad & _).
   rewrite Eid in Hf. cbn [k_id] in Hf. destruct (find_chunk_some _ _ _ E1) as [Hk1 _].
   destruct (Z.eqb_spec (k_id k1) c) as [E|E]; [|apply Hc; exact Hf].
   assert (Hcc : c = cid) by congruence. rewrite (Hsame Hcc) in *. rewrite Hcc in Hf. rewrite E1 in Hf. injection Hf as <-.
   split.
-  - intros i Hi. destruct (hull_update_cover (mkinfo (k_id k1) (k_min k1) (k_max k1) (Some root) 0 false) (fst ri) (snd ri)) as [H1 H2].
-    specialize (Hcov i Hi). lia.
+  - intros i Hi. destruct (hull_update_cover (mkinfo (k_id k1) (k_min k1) (k_max k1) (Some root) 0 false false) (fst ri) (snd ri)) as [H1 H2].
+    assert (Hp : k_partial (hull_update (mkinfo (k_id k1) (k_min k1) (k_max k1) (Some root) 0 false false) (fst ri) (snd ri)) = false) by reflexivity.
+    unfold k_rmin, k_rmax. rewrite Hp. specialize (Hcov i Hi). lia.
   - rewrite Eroot, Ebad. cbn [k_root k_bad]. intros _ rs Hr. injection Hr as <-. split; [exact Hrn|]. split; [exact Hso|exact Ha].
 Qed.
 
-Lemma serve_inv st : J st -> J (serve fixed_variant st) /\ (synced st -> synced (serve fixed_variant st)).
+Lemma serve_gen st : J st -> J (serve fixed_variant st) /\ map k_id (p_ci (serve fixed_variant st)) = map k_id (p_ci st).
 Proof.
   intros [Hids Hcne Hsorted Hi64 Hinv]. unfold serve. cbn [fix_zero fixed_variant].
   set (cks := p_chunks st) in *.
@@ -812,7 +900,13 @@ Proof.
     - split; [exact IH1|]. rewrite IH2. apply ci_rebuild_ids. }
   destruct (Hgen (p_queue st) (p_ci st) Hinv) as [H1 H2]. split.
   - constructor; cbn [p_chunks p_ci]; assumption.
-  - unfold synced. cbn [p_ci p_chunks]. intros Hs. rewrite H2. exact Hs.
+  - cbn [p_ci]. exact H2.
+Qed.
+Lemma serve_ids st : J st -> map k_id (p_ci (serve fixed_variant st)) = map k_id (p_ci st).
+Proof. intros HJ. apply (proj2 (serve_gen st HJ)). Qed.
+Lemma serve_inv st : J st -> J (serve fixed_variant st) /\ (synced st -> synced (serve fixed_variant st)).
+Proof.
+  intros HJ. destruct (serve_gen st HJ) as [H1 H2]. split; [exact H1|]. unfold synced. rewrite H2. unfold serve. cbn [p_chunks]. exact (fun H => H).
 Qed.
 
 (* ---------- histories ---------- *)
@@ -832,70 +926,87 @@ Definition next_dropped (dropped : bool) (o : op) : bool :=
   match o with HDrop => true | HServe => dropped | HRestart => dropped | _ => false end.
 
 (* a clean restart keeps hull and index of every chunk *)
+Lemma restart_info_id k : k_id (restart_info k) = k_id k.
+Proof. unfold restart_info. destruct (k_partial k); reflexivity. Qed.
 Lemma find_chunk_restart ci c k' : find_chunk (ci_restart ci) c = Some k' ->
-  exists k, find_chunk ci c = Some k /\ k' = mkinfo (k_id k) (k_min k) (k_max k) (if k_bad k then None else k_root k) 0 false.
+  exists k, find_chunk ci c = Some k /\ k' = restart_info k.
 Proof.
-  induction ci as [|a ci IH]; cbn [ci_restart map find_chunk k_id]; [discriminate|]. fold (ci_restart ci).
+  induction ci as [|a ci IH]; cbn [ci_restart map find_chunk]; [discriminate|]. fold (ci_restart ci). rewrite restart_info_id.
   destruct (k_id a =? c); [intros H; injection H as <-; exists a; split; reflexivity|exact IH].
 Qed.
+Lemma restart_ids ci : map k_id (ci_restart ci) = map k_id ci.
+Proof. unfold ci_restart. rewrite map_map. apply map_ext. intros k. apply restart_info_id. Qed.
 Lemma restart_inv st : J st -> J (mkp (p_chunks st) (ci_restart (p_ci st)) []) /\
   (synced st -> synced (mkp (p_chunks st) (ci_restart (p_ci st)) [])).
 Proof.
   intros [Hids Hcne Hsorted Hi64 Hinv]. split.
   - constructor; cbn [p_chunks p_ci]; try assumption. intros c d k' Hin Hf.
-    destruct (find_chunk_restart _ _ _ Hf) as (k & Hk & ->). destruct (Hinv c d k Hin Hk) as [Hh Hi]. split.
-    + intros i Hi0. apply Hh. exact Hi0.
+    destruct (find_chunk_restart _ _ _ Hf) as (k & Hk & ->). destruct (Hinv c d k Hin Hk) as [Hh Hi]. unfold restart_info.
+    destruct (k_partial k) eqn:Ep; split.
+    + intros i Hi0. specialize (Hh i Hi0). unfold k_rmin, k_rmax in *. rewrite Ep in Hh. cbn [k_partial]. exact Hh.
+    + cbn [k_bad]. intros Hb. discriminate.
+    + intros i Hi0. specialize (Hh i Hi0). unfold k_rmin, k_rmax in *. rewrite Ep in Hh. cbn [k_partial k_min k_max]. exact Hh.
     + cbn [k_bad k_root]. intros _ rs Hr. destruct (k_bad k) eqn:Eb; [discriminate|]. apply Hi; [reflexivity|exact Hr].
-  - unfold synced. cbn [p_ci p_chunks]. intros <-. unfold ci_restart. rewrite map_map. reflexivity.
+  - unfold synced. cbn [p_ci p_chunks]. intros <-. apply restart_ids.
 Qed.
 
-Lemma step_inv o st dropped :
-  J st -> (dropped = false -> synced st) -> op_ok o ->
-  (forall segs, o = HBatch segs -> dropped = false /\ segs_disc (ids_of (p_chunks st)) true segs) ->
+(* what an operation does to "the index knows every chunk": an index loss ends it, SyncChunks (alone, in a read or in a
+   describe) establishes it, everything else keeps it *)
+Definition sync_after (o : op) (st st' : pstate) : Prop :=
+  match o with
+  | HDrop => True
+  | HSync | HRead _ _ | HDescribe => synced st'
+  | _ => synced st -> synced st'
+  end.
+
+Lemma step_inv o st :
+  J st -> ssynced st -> op_ok o ->
+  (forall segs, o = HBatch segs -> segs_disc (ids_of (p_chunks st)) true segs) ->
   sorted_z (alld_of (p_chunks st) ++ op_data o) ->
   let st' := step fixed_variant st o in
-  J st' /\ (next_dropped dropped o = false -> synced st') /\
+  J st' /\ ssynced st' /\ sync_after o st st' /\
   alld_of (p_chunks st') = alld_of (p_chunks st) ++ op_data o /\
   ids_of (p_chunks st') = match o with HBatch segs => ids_after (ids_of (p_chunks st)) segs | _ => ids_of (p_chunks st) end.
 Proof.
-  intros HJ Hsy Hok Hb Hso. destruct o as [segs| | | |o1 o2| |]; cbn [step op_data next_dropped] in *.
-  - destruct (Hb segs eq_refl) as [Hd Hdisc].
-    destruct (run_segs_inv fixed_variant eq_refl segs st iw_init [] true HJ (Hsy Hd)) as (H1 & H2 & H3 & H4); auto.
+  intros HJ Hsy Hok Hb Hso. destruct o as [segs| | | |o1 o2| |]; cbn [step op_data sync_after] in *.
+  - pose proof (Hb segs eq_refl) as Hdisc.
+    destruct (run_segs_inv fixed_variant eq_refl eq_refl segs st iw_init [] true HJ Hsy) as (H1 & [H2 H2'] & H3 & H4); auto.
     + left. split; reflexivity.
     + intros x [].
-  - rewrite app_nil_r. destruct (serve_inv st HJ) as [H1 H2]. split; [exact H1|]. split; [intros E; apply H2; apply Hsy; exact E|].
-    split; reflexivity.
-  - rewrite app_nil_r. destruct (sync_inv st HJ) as [H1 H2]. split; [exact H1|]. split; [intros _; exact H2|]. split; reflexivity.
-  - rewrite app_nil_r. split; [|split; [discriminate|split; reflexivity]].
+  - rewrite app_nil_r. destruct (serve_inv st HJ) as [H1 H2]. split; [exact H1|].
+    assert (Hs : ssynced st -> ssynced (serve fixed_variant st)).
+    { intros [pre E]. exists pre. unfold serve at 1. cbn [p_chunks]. rewrite E. f_equal. symmetry. apply (serve_ids st HJ). }
+    split; [apply Hs; exact Hsy|]. split; [exact H2|]. split; reflexivity.
+  - rewrite app_nil_r. destruct (sync_inv st HJ) as [H1 H2]. split; [exact H1|]. split; [apply synced_ssynced; exact H2|]. split; [exact H2|]. split; reflexivity.
+  - rewrite app_nil_r. split; [|split; [exists (ids_of (p_chunks st)); cbn; rewrite app_nil_r; reflexivity|split; [exact I|split; reflexivity]]].
     destruct HJ as [H1 H2 H3 H4 H5]. constructor; cbn [p_chunks p_ci]; try assumption. intros c d k _ Hf. discriminate.
   - rewrite app_nil_r. destruct (range_read_state fixed_variant st o1 o2) as [Ec Ei].
     destruct (sync_inv st HJ) as [H1 H2].
     set (st' := snd (range_read fixed_variant st o1 o2)) in *.
     assert (Est : st' = mkp (p_chunks st) (ci_sync (p_ci st) (p_chunks st)) (p_queue st')).
     { destruct st' as [c i q]. cbn [p_chunks p_ci p_queue] in *. subst. reflexivity. }
-    rewrite Est. split; [apply (J_queue _ _ H1)|]. split; [intros _; exact H2|]. split; reflexivity.
-  - rewrite app_nil_r. destruct (restart_inv st HJ) as [H1 H2]. split; [exact H1|]. split; [intros E; apply H2; apply Hsy; exact E|].
-    split; reflexivity.
+    rewrite Est. split; [apply (J_queue _ _ H1)|]. split; [apply synced_ssynced; exact H2|]. split; [exact H2|]. split; reflexivity.
+  - rewrite app_nil_r. destruct (restart_inv st HJ) as [H1 H2]. split; [exact H1|].
+    split; [destruct Hsy as [pre E]; exists pre; cbn [p_chunks p_ci]; rewrite restart_ids; exact E|]. split; [exact H2|]. split; reflexivity.
   - rewrite app_nil_r. destruct (sync_inv st HJ) as [H1 H2]. unfold describe.
-    split; [apply (J_queue _ _ H1)|]. split; [intros _; exact H2|]. split; reflexivity.
+    split; [apply (J_queue _ _ H1)|]. split; [apply synced_ssynced; exact H2|]. split; [exact H2|]. split; reflexivity.
 Qed.
 
-Lemma run_inv : forall h st dropped,
-  J st -> (dropped = false -> synced st) -> Forall op_ok h ->
-  hist_disc (ids_of (p_chunks st)) h -> nwad dropped h -> sorted_z (alld_of (p_chunks st) ++ hist_data h) ->
+Lemma run_inv : forall h st,
+  J st -> ssynced st -> Forall op_ok h ->
+  hist_disc (ids_of (p_chunks st)) h -> sorted_z (alld_of (p_chunks st) ++ hist_data h) ->
   J (fold_left (step fixed_variant) h st) /\
   alld_of (p_chunks (fold_left (step fixed_variant) h st)) = alld_of (p_chunks st) ++ hist_data h.
 Proof.
-  induction h as [|o h IH]; intros st dropped HJ Hsy Hok Hdisc Hnw Hso.
+  induction h as [|o h IH]; intros st HJ Hsy Hok Hdisc Hso.
   - cbn. rewrite app_nil_r. auto.
   - inversion Hok as [|x l Ho Hh]; subst. cbn [fold_left hist_data flat_map] in *.
     assert (Hso1 : sorted_z (alld_of (p_chunks st) ++ op_data o)) by (rewrite app_assoc in Hso; apply (sorted_z_app_l _ _ Hso)).
-    assert (Hb : forall segs, o = HBatch segs -> dropped = false /\ segs_disc (ids_of (p_chunks st)) true segs).
-    { intros segs ->. cbn in Hdisc, Hnw. destruct Hdisc as [H1 _]. destruct Hnw as [H2 _]. split; assumption. }
-    destruct (step_inv o st dropped HJ Hsy Ho Hb Hso1) as (HJ1 & Hsy1 & Hall1 & Hids1).
-    destruct (IH (step fixed_variant st o) (next_dropped dropped o) HJ1 Hsy1 Hh) as [HJ2 Hall2].
+    assert (Hb : forall segs, o = HBatch segs -> segs_disc (ids_of (p_chunks st)) true segs).
+    { intros segs ->. cbn in Hdisc. destruct Hdisc as [H1 _]. exact H1. }
+    destruct (step_inv o st HJ Hsy Ho Hb Hso1) as (HJ1 & Hsy1 & _ & Hall1 & Hids1).
+    destruct (IH (step fixed_variant st o) HJ1 Hsy1 Hh) as [HJ2 Hall2].
     + rewrite Hids1. destruct o; cbn in Hdisc; try exact Hdisc. destruct Hdisc as [_ H]. exact H.
-    + destruct o; cbn in Hnw |- *; try exact Hnw. destruct Hnw as [_ H]. exact H.
     + rewrite Hall1, <- app_assoc. exact Hso.
     + split; [exact HJ2|]. rewrite Hall2, Hall1, <- app_assoc. reflexivity.
 Qed.
@@ -927,11 +1038,11 @@ Qed.
 (* (B)+(A): the fully repaired variant, every history with non-decreasing timestamps *)
 Theorem complete_fixed hist o1 o2 :
   Forall op_ok hist -> op_ok (HRead o1 o2) ->
-  hist_sorted hist -> hist_disciplined hist -> hist_small hist -> no_write_after_drop hist ->
+  hist_sorted hist -> hist_disciplined hist -> hist_small hist ->
   complete_at fixed_variant (run fixed_variant hist) o1 o2.
 Proof.
-  intros Hok [Hr1 Hr2] Hsorted Hdisc Hsmall Hnw.
-  destruct (run_inv hist p_init false J_init (fun _ => eq_refl) Hok Hdisc Hnw Hsorted) as [HJ Hall].
+  intros Hok [Hr1 Hr2] Hsorted Hdisc Hsmall.
+  destruct (run_inv hist p_init J_init (synced_ssynced p_init eq_refl) Hok Hdisc Hsorted) as [HJ Hall].
   fold (run fixed_variant hist) in *. set (st := run fixed_variant hist) in *. cbn [p_init p_chunks alld_of flat_map app] in Hall.
   destruct (sync_inv st HJ) as [HJs Hsy]. pose proof HJ as [Hids Hcne Hso Hi64 Hinv].
   apply complete_of_inv; try reflexivity; try assumption.
@@ -957,12 +1068,13 @@ Definition nonvac_hist : list op :=
    HBatch [mkseg 1 false (repeat 10 5); mkseg 2 false (repeat 10 245 ++ repeat 20 6)];
    HRead (Some 10) (Some 10);
    HDrop; HSync; HRead (Some 7) None; HDescribe; HServe; HRestart;
-   HBatch [mkseg 2 false (repeat 20 250)]].
+   HBatch [mkseg 2 false (repeat 20 250)];
+   HDrop; HBatch [mkseg 2 false (repeat 20 4)]; HRead (Some 10) (Some 20); HRestart; HBatch [mkseg 2 false (repeat 20 6)]; HServe].
 
-Lemma nonvac_ok : hist_sorted nonvac_hist /\ hist_disciplined nonvac_hist /\ no_write_after_drop nonvac_hist /\
-  length (fst (range_read fixed_variant (run fixed_variant nonvac_hist) (Some 0) (Some 20))) = 1006%nat.
+Lemma nonvac_ok : hist_sorted nonvac_hist /\ hist_disciplined nonvac_hist /\ ~ no_write_after_drop nonvac_hist /\
+  length (fst (range_read fixed_variant (run fixed_variant nonvac_hist) (Some 0) (Some 20))) = 1016%nat.
 Proof.
   split; [apply sorted_zb_ok; vm_compute; reflexivity|].
   split; [apply hist_discb_ok; vm_compute; reflexivity|].
-  split; [apply nwadb_ok; vm_compute; reflexivity|]. vm_compute. reflexivity.
+  split; [vm_compute; intuition discriminate|]. vm_compute. reflexivity.
 Qed.
